@@ -728,7 +728,7 @@ func (a *analysis) sanitizer() {
 				return isConst
 			}
 			empty := func(b *cfg.Block, s int) bool {
-				return cfgq.EdgeEstablishes(b, s, func(ft cfgq.Fact) bool {
+				return g.Establishes(b, s, func(ft cfgq.Fact) bool {
 					be, ok := ast.Unparen(ft.Expr).(*ast.BinaryExpr)
 					if !ok {
 						return false
